@@ -67,6 +67,9 @@ pub struct RxState {
     pub table: MandTable,
     /// frag ids with an open context
     pub open_ids: Vec<u8>,
+    /// when set: the state is rebuilt by provisioning these buffers and decapsulating these packets on a fresh
+    /// memory (instead of transplanting the snapshot), so that nothing depends on how the memory keeps its books
+    pub rebuild: Option<(Vec<usize>, Vec<Vec<u8>>)>,
 }
 
 impl RxState {
@@ -75,6 +78,17 @@ impl RxState {
     /// plain clone could never be provisioned again; cloning is the harness' choice, not an API use
     /// the properties quantify over).
     pub fn instantiate(&self) -> PlainDec {
+        if let Some((bufs, pkts)) = &self.rebuild {
+            let mut mem = SimpleGseMemory::new(self.slots, self.pdu_size, 0, 0);
+            for b in bufs {
+                let _ = mem.provision_storage(vec![0u8; *b].into_boxed_slice());
+            }
+            let mut d = Decapsulator::new(mem, DefaultCrc {}, TableMgr::new(self.table.clone()));
+            for p in pkts {
+                let _ = guard(|| d.decap(p));
+            }
+            return d;
+        }
         let mut src = self.mem.clone();
         let mut mem = SimpleGseMemory::new(self.slots, self.pdu_size, 0, 0);
         if self.slots > 0 {
@@ -137,7 +151,7 @@ fn build(name: &'static str, slots: usize, pdu_size: usize, bufs: &[usize], open
         }
     }
     let mem = d.memory;
-    Some(RxState { name, slots, pdu_size, mem, prime, table, open_ids })
+    Some(RxState { name, slots, pdu_size, mem, prime, table, open_ids, rebuild: None })
 }
 
 pub fn table_all() -> MandTable {
@@ -188,7 +202,10 @@ pub fn small_states() -> Vec<RxState> {
 pub fn all_ids_open_state() -> Option<RxState> {
     let open: Vec<(u8, usize, u16)> = (0..=255u8).map(|i| (i, 4usize, 40u16)).collect();
     let bufs: Vec<usize> = vec![16; 258];
-    build("256-slots-every-id-open", 256, 16, &bufs, &open, None, MandTable::none())
+    let mut st = build("256-slots-every-id-open", 256, 16, &bufs, &open, None, MandTable::none())?;
+    let pkts: Vec<Vec<u8>> = (0..=255u8).map(|i| mk_first(2, &[], i, 40, 0x0800, &[i, i, i, i])).collect();
+    st.rebuild = Some((bufs, pkts));
+    Some(st)
 }
 
 /// storage >= 64 KiB with a context close to 65535 received bytes (expensive to clone)
